@@ -246,8 +246,13 @@ func ruleC07a(c *Ctx) {
 	}
 }
 
-// mentionsField: some source of v is a load of a field with that name.
+// mentionsField: some source of v is a load of a field with that name, directly or as what a module helper
+// called for the value returns (`c.enabledFor(route)` returning the container's or the route's setting).
 func mentionsField(p *Program, v ssa.Value, field string) bool {
+	return mentionsFieldDepth(p, v, field, 0)
+}
+
+func mentionsFieldDepth(p *Program, v ssa.Value, field string, depth int) bool {
 	for _, s := range p.sources(v, provDefault) {
 		if _, f, ok := fieldLoad(s); ok && f.Name() == field {
 			return true
@@ -256,6 +261,17 @@ func mentionsField(p *Program, v ssa.Value, field string) bool {
 			// *ptr where ptr is a load of the field
 			if _, f, ok := fieldLoad(strip(u.X)); ok && f.Name() == field {
 				return true
+			}
+		}
+		if call, ok := s.(*ssa.Call); ok && depth < 2 {
+			if g := call.Call.StaticCallee(); g != nil && p.inModule(g) && g.Blocks != nil {
+				for _, r := range returnsOf(g) {
+					for _, res := range r.Results {
+						if mentionsFieldDepth(p, res, field, depth+1) {
+							return true
+						}
+					}
+				}
 			}
 		}
 	}
@@ -413,6 +429,25 @@ func c07Wants(c *Ctx, fn *ssa.Function) {
 			for f := range vr.Facts {
 				if t, whenTrue := mentions(f.Cond, enc); t && whenTrue == f.Pol {
 					okM = true
+				}
+			}
+			// the facts common to all paths may not say it where every single feasible path does (a switch that
+			// tests one comparison in two cases)
+			if !okM && vr.Block == vr.Ret.Block() {
+				if paths, okP := enumPaths(fn, vr.Ret.Block(), 500); okP && len(paths) > 0 {
+					all := true
+					for _, pa := range paths {
+						has := false
+						for f := range pa.Facts {
+							if t, whenTrue := mentions(f.Cond, enc); t && whenTrue == f.Pol {
+								has = true
+							}
+						}
+						if !has {
+							all = false
+						}
+					}
+					okM = all
 				}
 			}
 		} else if t, whenTrue := mentions(r.Results[0], enc); t && whenTrue {
